@@ -182,7 +182,7 @@ pub fn run(ctx: &Ctx) -> i32 {
         Finish {
             rule: "each PRNG-generated model is encoded under k+1 vectors of neutral choices (baseline; each of the 9 choices alone: storage raw/zlib 0-9/stored blocks, chunk-count field, ignorable chunks in any gap, junk in unused header/layer/cel/tag/slice fields, zero pixel-ratio component, chunk-end padding, trailing bytes, redundant legacy palette, permuted cel chunks; random combinations; all at once); whole-API observations (structure, cels, cel images, frame images, tileset images, tilemaps) must be equal to the baseline's and to the model's expectation; distinct = model feature hash".into(),
             coverage_extra: json!({"encodings_per_model": k + 1}),
-            assumptions: vec!["header flag bit0 (layer opacity valid) is kept set; pixel ratio a:b with a=b>1 is never generated (the crate refuses 2:2)".into()],
+            assumptions: vec!["the header's 'layer opacity valid' bit is cleared (with junk opacity bytes) only for models whose layers are all opaque - then, and only then, the byte is an unused field; pixel ratio a:b with a=b>1 is never generated (the crate refuses 2:2)".into()],
             exhaustive: false,
             min_evaluations: 100,
         },
